@@ -123,6 +123,9 @@ type HTTPCall struct {
 	Start int // world time at which the request was made
 }
 
+// Remaining is the number of scripted requests not sent yet.
+func (c *Conn) Remaining() int { return len(c.Spec.Script) - c.next }
+
 // Action is one enabled choice.
 type Action struct {
 	Name string
@@ -215,11 +218,11 @@ func NewWorld(sc *Scenario) *World {
 	w.Cache = serv.VerifCache()
 	w.Cache.VerifAddWorkers(24)
 
-	if sc.Init != nil {
-		sc.Init(w)
-	}
 	for i := range sc.Conns {
 		w.addConn(&sc.Conns[i])
+	}
+	if sc.Init != nil {
+		sc.Init(w)
 	}
 	w.thrNext = make([]int, len(sc.Threads))
 	if sc.Monitors != nil {
